@@ -7,9 +7,11 @@ import (
 	"strconv"
 	"strings"
 	"sync"
+	"sync/atomic"
 	"testing"
 
 	res "github.com/jirenius/go-res"
+	"github.com/jirenius/go-res/store/badgerstore"
 	"pgregory.net/rapid"
 
 	"verifharness/internal/evid"
@@ -356,5 +358,83 @@ func TestPropConcurrentWriters(t *testing.T) {
 		if msg != "" {
 			rt.Fatalf("%s\ncase: %s", msg, c)
 		}
+	})
+}
+
+// TestPropFailedCommit: a Create / Update / Delete whose database transaction fails at commit
+// time (a writer outside the store's key lock - a second Store value on the same database -
+// writes the key between the operation's read and its commit). The operation returns an
+// error, so it never happened: nothing may be published for it.
+func TestPropFailedCommit(t *testing.T) {
+	rapid.Check(t, func(rt *rapid.T) {
+		c := genCase("badger").Draw(rt, "case")
+		f, err := newFixture(c.Cfg)
+		if err != nil {
+			rt.Fatalf("VERIF-INCONCLUSIVE: %v", err)
+		}
+		defer f.cleanup()
+		bst := f.st.(*badgerstore.Store)
+		outside := badgerstore.NewStore(bst.DB).SetPrefix(c.Cfg.Prefix) // same records, no listeners
+		var armed atomic.Bool
+		var other Mut
+		bst.BeforeChange(func(id string, before, after interface{}) error {
+			if !armed.CompareAndSwap(true, false) {
+				return nil
+			}
+			// the outside writer gets in between this operation's read and its commit
+			done := make(chan struct{})
+			go func() {
+				defer close(done)
+				tx := outside.Write(id)
+				if before == nil {
+					_ = tx.Create(storedValue(c.Cfg, other.V))
+				} else {
+					_ = tx.Update(storedValue(c.Cfg, other.V))
+				}
+				_ = tx.Close()
+			}()
+			<-done
+			return nil
+		})
+		exists := map[string]bool{}
+		conflicts := 0
+		for i, m := range c.Muts {
+			if m.K == "init" {
+				m.K = "create"
+			}
+			conflict := rapid.IntRange(0, 2).Draw(rt, "conflict") == 0 && (m.K == "create") != exists[m.ID]
+			if conflict {
+				other = Mut{V: genValue(c.Cfg.Type).Draw(rt, "outsideValue")}
+				armed.Store(true)
+			}
+			mark := f.conn.LogLen()
+			tx := f.st.Write(storeID(f.cfg, m.ID))
+			err := f.mutate(tx, m)
+			_ = tx.Close()
+			armed.Store(false)
+			if err == nil {
+				if m.K == "delete" {
+					delete(exists, m.ID)
+				} else {
+					exists[m.ID] = true
+				}
+				if conflict && m.K != "delete" {
+					rt.Fatalf("mutation %d %+v: an outside write of the same key landed between its read and its commit, and it still returned success", i, m)
+				}
+				continue
+			}
+			if conflict {
+				conflicts++
+				if m.K == "create" {
+					exists[m.ID] = true // the outside writer created it
+				}
+			}
+			for _, e := range f.conn.LogFrom(mark) {
+				if e.Kind == "pub" && strings.HasPrefix(e.Subject, "event.") {
+					rt.Fatalf("mutation %d %+v failed (%v), yet %s %s was published for it", i, m, err, e.Subject, e.Data)
+				}
+			}
+		}
+		ev.Case(conflicts > 0, evid.Hash("failedcommit", c.String(), conflicts), "failed-commit")
 	})
 }
